@@ -30,7 +30,7 @@ import random
 PROPERTY = "C15"
 LEVEL = "exploration"
 RULE = (
-    "case = (pipeline mode in {general, dialog, single_call, passthrough; a few Colang 2.x `llm continuation`} x rails, conversation set of 2-3 conversations x 1-3 turns from an "
+    "case = (pipeline mode in {general, dialog, single_call, passthrough, multi-step generation; a few Colang 2.x `llm continuation`} x rails, conversation set of 2-3 conversations x 1-3 turns from an "
     "adversarial text family (cache-key separator, role mimicry, JSON-looking texts, empty strings, legit shared prefixes, equal replies, plain), "
     "and EITHER one sequential interleaving of the turns (all interleavings when <=20, sampled above) OR a concurrent schedule = (task start order, "
     "release order of the parked LLM/rail calls; all orders when <=4 parked calls, sampled above) with per-conversation llm_params); "
@@ -54,8 +54,8 @@ CASE_WALL_S = 120
 
 CONFIGURED = {"temperature": 0.37, "max_tokens": 111, "model_kwargs": {"top_p": 0.93}}
 LOWEST_T = 0.001
-MODES = ("general", "dialog", "single_call", "passthrough")
-LLM_CALLS_PER_TURN = {"general": 1, "dialog": 3, "single_call": 1, "passthrough": 1, "v2": 2}
+MODES = ("general", "dialog", "single_call", "passthrough", "multi_step")
+LLM_CALLS_PER_TURN = {"general": 1, "dialog": 3, "single_call": 1, "passthrough": 1, "v2": 2, "multi_step": 3}
 PARAM_POOL = [
     None,
     {"temperature": 0.9},
@@ -334,6 +334,7 @@ def conc_cases(tier, seed):
         ("dialog", 2, 1, 1, 1),
         ("dialog", 3, 1, 0, 0),
         ("dialog", 2, 2, 0, 0),
+        ("multi_step", 2, 1, 0, 0),
         ("general", 2, 1, 1, 1),
         ("general", 3, 2, 1, 0),
         ("v2", 2, 1, 0, 0),
@@ -511,6 +512,15 @@ def make_script(mode, answers, default):
                 return "  ask something"
             if tail.startswith("user ask"):
                 return "bot answer something"
+            return '  "%s"' % reply(prompt)
+        if mode == "multi_step":
+            # no flow handles the intent: the LLM writes the next steps as a small flow, different for every conversation
+            if tail.startswith('user "'):
+                # two intents, chosen by the text: conversations reach the SAME intent with DIFFERENT intent histories
+                return "  ask other" if int(hashlib.sha1(tail.encode()).hexdigest()[:2], 16) % 2 else "  ask something"
+            if tail.startswith("user ask"):
+                slug = "".join("abcdefghij"[int(c, 16) % 10] for c in hashlib.sha1(reply(prompt).encode()).hexdigest()[:6])
+                return "bot answer %s\nbot add %s" % (slug, slug[::-1])
             return '  "%s"' % reply(prompt)
         if mode == "single_call":
             return '  ask something\nbot answer something\n  "%s"' % reply(prompt)
